@@ -626,8 +626,9 @@ def user(R, b, v, bs, sk, sp, cl):
     arg = canon(v, raw)
     by_ref = raw[0] == "ref"
     inner = _see_through_locals(v, strip_refs(arg))
-    src = _question_mark_payload(v, inner)
-    if src is None or not (src[0] == "call" and src[1] == ch["bb"]):
+    # whatever carries it there (`?`, an explicit match, temporaries): every alternative is the child's Ok payload
+    al = set(strip_refs(canon(v, a)) for a in v.alts(strip_refs(raw)))
+    if not al or not all(a[0] == "field" and a[2] == "Ok" and isinstance(a[1], tuple) and a[1][0] == "call" and a[1][1] == ch["bb"] for a in al):
         R.bad("C11.CONTAINER", body, "%s does not receive the successfully deserialised intermediate value (after `?`)" % conv["fn"], b.span, fmt(inner))
     if bool(conv["by_ref"]) != by_ref:
         R.bad("C11.CONTAINER", body, "by-reference flag of %s is not honoured" % conv["fn"], b.span)
@@ -635,7 +636,7 @@ def user(R, b, v, bs, sk, sp, cl):
         R.add("C11.CONTAINER")
         # its error is merged (None, e, P) in a map_err closure and ends the call
         okm = False
-        for path, (cv, cbs) in cl.items():
+        for path, (cv, cbs) in list(cl.items()) + [(body, (v, bs))]:
             for s in cbs.sites:
                 if s.kind == "merge" and s.self_none and s.handling == "collapsed":
                     okm = True
@@ -671,8 +672,10 @@ def validate(R, b, v, bs, sk, sp, cl):
     src = _question_mark_payload(v, a0)
     conv = sp["from"] or sp["try_from"]
     ok = False
-    if src is not None:
-        ok = True  # value that survived the container's own `?`
+    al0 = set(strip_refs(canon(v, a)) for a in v.alts(strip_refs(got["arg0"])))
+    if src is not None or (a0[0] == "field" and a0[2] == "Ok" and str(a0[3]) == "0") or \
+            (al0 and all(a[0] == "field" and a[2] == "Ok" and isinstance(a[1], tuple) and a[1][0] == "call" for a in al0)):
+        ok = True  # value that survived the container's own `?` (or the explicit match that stands for it)
     elif conv and a0[0] == "call":
         c = v.callee(a0[1])
         ok = c is not None and c.fn is not None and c.path.split("::")[-1] == conv["fn"]  # container `from`: the converted value
